@@ -62,6 +62,9 @@ def main():
     if a.seeded:
         for d in sorted((HOME / "seeded").glob("*/")):
             meta = json.loads((d / "meta.json").read_text())
+            if meta.get("superseded"):
+                print(f"SKIPPED        {d.name:40s} {meta['superseded'][:160]}")
+                continue
             muts.append({"id": d.name, "props": [meta["property"]], "patch": d / "patch.diff"})
     else:
         from selftest.mutants import MUTANTS
